@@ -1536,6 +1536,33 @@ def build_moved(spec, dirs, alias):
     and handing it in again, as a caller that keeps one pose buffer does. Kinds without a pose matrix: build(spec)."""
     import copy
     base, _ms = base_of(spec)
+    if base["kind"] in ("sphere", "disk", "ellipse"):
+        # these classes are constructed from centre / normal / axes but moved with a 4x4 pose: the centre is its
+        # translation, the disk normal its z column, the ellipse axes its x and y columns
+        T = np.eye(4)
+        T[:3, 3] = arr(base["c"])
+        if base["kind"] == "disk":
+            n = unit(arr(base["n"]))
+            h = np.array([1.0, 0.0, 0.0]) if abs(n[0]) < 0.9 else np.array([0.0, 1.0, 0.0])
+            x = unit(np.cross(h, n))
+            T[:3, 0], T[:3, 1], T[:3, 2] = x, np.cross(n, x), n
+        elif base["kind"] == "ellipse":
+            ax = arr(base["axes"]).reshape(2, 3)
+            T[:3, 0], T[:3, 1], T[:3, 2] = ax[0], ax[1], np.cross(ax[0], ax[1])
+        wspec = copy.deepcopy(spec)
+        wb, _ = base_of(wspec)
+        W = _WARM.dot(T)
+        wb["c"] = W[:3, 3].tolist()
+        if base["kind"] == "disk":
+            wb["n"] = W[:3, 2].tolist()
+        elif base["kind"] == "ellipse":
+            wb["axes"] = np.ascontiguousarray(W[:3, :2].T).ravel().tolist()
+        obj = build(wspec)
+        for d in dirs:
+            if any(d):
+                impl_support(obj, d)
+        obj.update_pose(T.copy())
+        return obj
     if base["kind"] not in POSE_KINDS:
         return build(spec)
     wspec = copy.deepcopy(spec)
@@ -2012,7 +2039,8 @@ def search(ctx):
                 dirs.insert(rng.randrange(len(dirs) + 1), target)
             dirs = dirs[:12]
         seed = rng.randrange(2 ** 31)
-        moved = (None, None, "fresh", "alias")[i % 4] if base_of(spec)[0]["kind"] in POSE_KINDS else None
+        moved = (None, None, "fresh", "alias")[i % 4] if base_of(spec)[0]["kind"] in POSE_KINDS + (
+            "sphere", "disk", "ellipse") else None
         ctx.branch("collider-history", moved or "constructed-at-pose")
         viol = oracle_job(spec, dirs, sweep, seed, notes, moved=moved)
         ident = is_identity_pose(spec)
